@@ -29,6 +29,7 @@ import Compass.Proofs.SearchOpt
 import Compass.Proofs.ConfigUniform
 import Compass.Proofs.ConfigProgress
 import Compass.Proofs.SearchReach
+import Compass.Proofs.SearchTermination
 
 namespace Compass
 namespace C05
@@ -356,6 +357,108 @@ example : ∃ es, Walk delayConfig.inst delayConfig.okOf 1 es 2 := by
       some [[0, 1, 3]] by decide +kernel)
   exact (config_edge_oriented_nopath_iff_unreachable delayConfig delayConfig_local 0 3 [1, 2]
     ⟨0, 1, 100⟩ ⟨2, 3, 100⟩ rfl rfl (by decide)).1 ⟨r, hr⟩
+
+/-! ### The search ends, and ends with the right answer (no premise on the outcome)
+
+The theorems above start from a run that ended in a result or in "no path".  That every run can be
+brought to such an end — the loop is never stuck, and under the Dijkstra discipline ends within
+|V| + 1 pops — is `Proofs/SearchTermination.lean`; these are its C05-facing forms. -/
+
+/-- **a deciding run exists, and every run can be completed to one** (Dijkstra, distance model,
+no limit configured): on a well-formed configuration over the vertices `< n` there is a schedule of
+at most `n + 1` pops on which the search returns a route or "no path" — a route exactly when the
+destination is reachable through permitted edges —, and every accepted, unfinished schedule (whatever
+ties the implementation broke so far) has at most `n` pops and extends to such a one.  So "reachable
+⇒ a route is returned, unreachable ⇒ no path" holds without assuming how the run ended. -/
+theorem dijkstra_decides_reachability (c : Config α) {du : DistanceUnit}
+    (W : c.WellFormedDistance du) {source t : Nat} (G : c.GraphOK source true)
+    (hwf : c.wf = some 0) (hlim : ∀ sz it, c.term.test sz it = .ok ()) {n : Nat}
+    (hsrc : source < n) (hV : c.VerticesBelow n) :
+    (∃ sched, sched.length ≤ n + 1 ∧
+      ((∃ r, c.runVertex source (some t) sched = .ok r) ∨
+        c.runVertex source (some t) sched = .error .noPath) ∧
+      ((∃ r, c.runVertex source (some t) sched = .ok r) ↔
+        ∃ es, Walk c.inst c.okOf source es t)) ∧
+    ∀ pre, c.runVertex source (some t) pre = .error .scheduleExhausted →
+      pre.length ≤ n ∧ ∃ ext, (pre ++ ext).length ≤ n + 1 ∧
+        ((∃ r, c.runVertex source (some t) (pre ++ ext) = .ok r) ∨
+          c.runVertex source (some t) (pre ++ ext) = .error .noPath) ∧
+        ((∃ r, c.runVertex source (some t) (pre ++ ext) = .ok r) ↔
+          ∃ es, Walk c.inst c.okOf source es t) :=
+  SearchTermination.config_dijkstra_decides c W G hwf hlim hsrc hV
+
+/-- the same for **any weight factor** (A* with re-opening included): a deciding schedule exists and
+every accepted unfinished schedule extends to one; the bound is the number of walks of fewer than `n`
+edges from the source (finite, exponential: it proves that the search ends, not that it ends soon —
+the iteration limit of C10 is the practical bound there) -/
+theorem search_decides_reachability (c : Config α) {du : DistanceUnit}
+    (W : c.WellFormedDistance du) {source t : Nat} (G : c.GraphOK source true)
+    (hlim : ∀ sz it, c.term.test sz it = .ok ()) {n : Nat} (hsrc : source < n)
+    (hV : c.VerticesBelow n) :
+    (∃ sched, sched.length ≤ (SearchTermination.walks c.inst source n).length + 2 ∧
+      ((∃ r, c.runVertex source (some t) sched = .ok r) ∨
+        c.runVertex source (some t) sched = .error .noPath) ∧
+      ((∃ r, c.runVertex source (some t) sched = .ok r) ↔
+        ∃ es, Walk c.inst c.okOf source es t)) ∧
+    ∀ pre, c.runVertex source (some t) pre = .error .scheduleExhausted →
+      pre.length ≤ (SearchTermination.walks c.inst source n).length + 1 ∧
+      ∃ ext, (pre ++ ext).length ≤ (SearchTermination.walks c.inst source n).length + 2 ∧
+        ((∃ r, c.runVertex source (some t) (pre ++ ext) = .ok r) ∨
+          c.runVertex source (some t) (pre ++ ext) = .error .noPath) ∧
+        ((∃ r, c.runVertex source (some t) (pre ++ ext) = .ok r) ↔
+          ∃ es, Walk c.inst c.okOf source es t) :=
+  SearchTermination.config_search_decides c W G hlim hsrc hV
+
+/-- **with any access model** (turn delays included; a failing lookup fails the run, so the end may be
+a component error): under the Dijkstra discipline a schedule of at most `n + 1` pops ends the run,
+every accepted unfinished schedule has at most `n` pops and extends to one that ends, and whenever
+a run ends in a result or "no path" it is a result exactly when the destination is reachable -/
+theorem dijkstra_with_access_model_ends_and_decides (c : Config α) (h : c.RestrictionLocal)
+    (hwf : c.wf = some 0) {source n : Nat} (hsrc : source < n) (hV : c.VerticesBelow n) (t : Nat) :
+    (∃ sched, sched.length ≤ n + 1 ∧
+      SearchTermination.Ended (c.runVertex source (some t) sched)) ∧
+    (∀ pre, c.runVertex source (some t) pre = .error .scheduleExhausted →
+      pre.length ≤ n ∧ ∃ ext, (pre ++ ext).length ≤ n + 1 ∧
+        SearchTermination.Ended (c.runVertex source (some t) (pre ++ ext))) ∧
+    ∀ sched, ((∃ r, c.runVertex source (some t) sched = .ok r) ∨
+        c.runVertex source (some t) sched = .error .noPath) →
+      ((∃ r, c.runVertex source (some t) sched = .ok r) ↔
+        ∃ es, Walk c.inst c.okOf source es t) ∧
+      (c.runVertex source (some t) sched = .error .noPath ↔
+        ¬ ∃ es, Walk c.inst c.okOf source es t) :=
+  SearchTermination.config_restrictionLocal_dijkstra_decides c h hwf hsrc hV t
+
+/-- a destination-less search returns its tree: a schedule of at most `n + 1` pops returns, and
+every accepted unfinished schedule extends to one that returns (with `config_tree_reachable`: the
+tree it returns is the reachable set) -/
+theorem tree_search_returns (c : Config α) {du : DistanceUnit} (W : c.WellFormedDistance du)
+    {source : Nat} (G : c.GraphOK source false) (hlim : ∀ sz it, c.term.test sz it = .ok ())
+    {n : Nat} (hsrc : source < n) (hV : c.VerticesBelow n) :
+    (∃ sched r, sched.length ≤ n + 1 ∧ c.runVertex source none sched = .ok r) ∧
+    ∀ pre, c.runVertex source none pre = .error .scheduleExhausted →
+      pre.length ≤ n ∧ ∃ ext r, (pre ++ ext).length ≤ n + 1 ∧
+        c.runVertex source none (pre ++ ext) = .ok r :=
+  SearchTermination.config_tree_search_returns c W G hlim hsrc hV
+
+/-- non-vacuity: the example configuration of `Proofs/ConfigUniform.lean` without any limit is well
+formed over 5 vertices; the theorem applies to it, and since vertex 3 is reachable from 0 (walk
+`[0, 7]`) the deciding schedule it gives returns a route -/
+example : ∃ sched r, sched.length ≤ 6 ∧
+    ({ ConfigUniform.Example.exC with term := .combined [] } : Config ℚ).runVertex 0 (some 3) sched
+      = .ok r := by
+  let c : Config ℚ := { ConfigUniform.Example.exC with term := .combined [] }
+  have W : c.WellFormedDistance .meters :=
+    ⟨ConfigUniform.Example.exC_wellFormed.trav, ConfigUniform.Example.exC_wellFormed.noAccess,
+      ConfigUniform.Example.exC_wellFormed.noTurn, ConfigUniform.Example.exC_wellFormed.slot,
+      ConfigUniform.Example.exC_wellFormed.cost_range,
+      ConfigUniform.Example.exC_wellFormed.frontier_total⟩
+  have G0 := ConfigUniform.Example.exC_graphOK 0 (by decide) true
+  have G : c.GraphOK 0 true := ⟨G0.adj, G0.inc_range, G0.gc_source, G0.gc_range⟩
+  obtain ⟨⟨sched, hlen, _, hiff⟩, _⟩ := dijkstra_decides_reachability c W (source := 0) (t := 3) G rfl
+    (fun sz it => SearchLimits.combined_nil_test sz it) (n := 5) (by decide) (by decide)
+  have hw : Walk c.inst c.okOf 0 [0, 7] 3 := by simp only [Walk]; decide +kernel
+  obtain ⟨r, hr⟩ := hiff.2 ⟨[0, 7], hw⟩
+  exact ⟨sched, r, hlen, hr⟩
 
 end C05
 end Compass
